@@ -212,6 +212,24 @@ def total_configs(tier, seed):
             spine_config('trees-depth3', wins[:2], 3, ALL_OPS - {'enclose'}, {'bad'}, quants=QUANTS_TWO, names=())]
 
 
+def terms_config(name, terms):
+    """Validate a list of surface terms against Eval(term) (PregexTerms): one state per term, replayed like spine states."""
+    import json
+    from . import randterms as RT
+    c = spine_config(name, [(97, 98, 99)], 1, set(), set(), quants=set(), names=())
+    c.update(module='PregexTerms', workers=1, invariants=['AllConsumed'],
+             cfg='SPECIFICATION TSpec\nPOSTCONDITION AllConsumed\nCHECK_DEADLOCK FALSE\n',
+             extra_files={'terms.json': json.dumps([RT.to_json(t) for t in terms])})
+    return c
+
+
+def random_term_configs(tier, seed, n_quick=4000, n_thorough=60000):
+    from . import randterms as RT
+    n = n_quick if tier == 'quick' else n_thorough
+    terms = RT.generate(seed * 7919 + 17, n)
+    return [terms_config('random-programs-%d' % i, terms[i:i + 20000]) for i in range(0, len(terms), 20000)]
+
+
 def generic(prop, facets, rule, configs_fn, args_tier=None, seeds=(0,), mode='rr', extra_assume=(), params=None):
     tier, seed = tier_and_seed(args_tier)
     t0 = time.time()
